@@ -674,11 +674,16 @@ pub fn gen_c16(seed: u64, thorough: bool) {
         // the gain must reach every public route to the samples (seeded change C16f: applied by `synthesize` only):
         // route 0 = Engine::synthesize, 1 = generator().generate_all(), 2 = generator() + generate_step loop
         let route = i % 3;
+        // every fourth case sets the volume BEFORE the voice defaults are (re)loaded into the condition (hand-built condition,
+        // voices reloaded into a running engine): `load_model` must leave the user's volume alone (seeded change C16g)
+        let reload = i % 4 == 3;
         e.condition.set_volume(0.0);
+        if reload { let vs = e.voices.clone(); e.condition.load_model(&vs).expect("load_model"); }
         let w0 = catch(std::panic::AssertUnwindSafe(|| render_route(&e, &lines, route)));
         let mut before = String::new();
         crate::c20::dump(&e.condition, e.voices.global_metadata().num_streams, &mut before);
         e.condition.set_volume(v);
+        if reload { let vs = e.voices.clone(); e.condition.load_model(&vs).expect("load_model"); }
         let mut after = String::new();
         crate::c20::dump(&e.condition, e.voices.global_metadata().num_streams, &mut after);
         let wv = catch(std::panic::AssertUnwindSafe(|| render_route(&e, &lines, route)));
